@@ -429,3 +429,70 @@ func knownNonNilErr(p *Prog, fn *Fn, e ast.Expr) bool {
 	}
 	return false
 }
+
+// resultGate earns the fact "ok|<kind>" on the nil edge of an error variable only while that variable still holds
+// the error result of a designated call (kind). An earlier or later nil test of the same, re-used variable (Go code
+// recycles `err`) earns nothing; a fact once earned survives later reuse of the variable.
+type resultGate struct {
+	p        *Prog
+	fn       *Fn
+	producer func(call *ast.CallExpr) string // kind of a designated call, "" otherwise
+}
+
+func (g *resultGate) Node(n ast.Node, f Facts) {
+	walkNoLit(n, func(nd ast.Node) bool {
+		switch as := nd.(type) {
+		case *ast.AssignStmt:
+			kind := ""
+			if len(as.Rhs) == 1 {
+				if call, ok := ast.Unparen(as.Rhs[0]).(*ast.CallExpr); ok {
+					kind = g.producer(call)
+				}
+			}
+			for i, l := range as.Lhs {
+				id, ok := ast.Unparen(l).(*ast.Ident)
+				if !ok {
+					continue
+				}
+				o := g.p.ObjOf(g.fn, id)
+				if o == nil {
+					continue
+				}
+				f.DelPrefix("holds|" + g.p.ID(o) + "|")
+				if kind != "" && i == len(as.Lhs)-1 && isErrorType(o.Type()) {
+					f["holds|"+g.p.ID(o)+"|"+kind] = true
+				}
+			}
+		case *ast.ValueSpec:
+			for _, id := range as.Names {
+				if o := g.p.ObjOf(g.fn, id); o != nil {
+					f.DelPrefix("holds|" + g.p.ID(o) + "|")
+				}
+			}
+		}
+		return true
+	})
+}
+
+func (g *resultGate) Edge(cond ast.Expr, taken bool, f Facts) {
+	for _, a := range splitCond(cond, taken) {
+		x, isNil, ok := nilTest(a)
+		if !ok || !isNil {
+			continue
+		}
+		id, ok := ast.Unparen(x).(*ast.Ident)
+		if !ok {
+			continue
+		}
+		o := g.p.ObjOf(g.fn, id)
+		if o == nil {
+			continue
+		}
+		pre := "holds|" + g.p.ID(o) + "|"
+		for k := range f {
+			if strings.HasPrefix(k, pre) {
+				f["ok|"+strings.TrimPrefix(k, pre)] = true
+			}
+		}
+	}
+}
